@@ -11,6 +11,7 @@ CONSTANTS
   MaxPending = 1000
   CleanupChecksGen = TRUE
   HumanChecksProfile = TRUE
+  HumanViaRecord = FALSE
 INVARIANTS GhostAgrees ProbesCorrect RestorePreserves GhostConsistent ModelAgrees
 POSTCONDITION TraceAccepted
 CHECK_DEADLOCK FALSE
